@@ -107,6 +107,7 @@ func Run(r *vh.Run) {
 		{"holstall", r.Pick(6, 80), scenHOL, false},
 		{"churn", r.Pick(6, 200), scenChurn, false},
 		{"rejects", r.Pick(5, 80), scenRejects, false},
+		{"unknownid", r.Pick(3, 40), scenUnknownID, false},
 		{"matrix", r.Pick(20, 60), scenMatrix, true},
 		{"syncclose", r.Pick(4, 40), scenSyncClose, false},
 		{"relay", r.Pick(3, 30), scenRelay, false},
@@ -1432,6 +1433,116 @@ func scenRelay(name string, rng *vh.RNG, r *vh.Run) {
 		r.Add(tc)
 	}
 	for _, tc := range tgCases(name, events, map[int]bool{srv.s.VerifTG(): true}, tags) {
+		r.Add(tc)
+	}
+}
+
+// scenUnknownID: raw peers that complete the handshake and send RPC ids the syncer has no handler
+// for (an unknown specifier, garbage, and — as the last act of a connection — a truncated one).
+// Limits are accounting, not leaks: once nothing runs, the per-subnet counter is back at zero, and
+// an ordinary RPC from the same subnet is served.  At least MaxInflightRPCsPerSubnet unknown ids
+// are sent, over several connections (the slot must survive neither disconnect nor reconnect).
+func scenUnknownID(name string, rng *vh.RNG, r *vh.Run) {
+	maxPeer := 1 + rng.Intn(3)
+	maxSub := 1 + rng.Intn(3)
+	nBad := maxSub + rng.Intn(3)
+	nConns := 1 + rng.Intn(2)
+	c := &vh.Case{Name: name, Tags: []string{"scen:unknownid", fmt.Sprintf("maxSub:%d", maxSub)},
+		Info: map[string]any{"maxPeer": maxPeer, "maxSub": maxSub, "unknown_ids": nBad, "connections": nConns}}
+	defer func() { r.Add(c) }()
+	threadgroup.VerifStart()
+	srv, err := newNode("127.0.0.1", "", func(int) int { return 0 }, true,
+		syncer.WithMaxInflightRPCs(maxPeer), syncer.WithMaxInflightRPCsPerSubnet(maxSub), syncer.WithInflightRPCSubnetPrefixes(24, 48))
+	if err != nil {
+		orc(c, "setup", "server: %v", err)
+		return
+	}
+	srv.gate.setOpen(true)
+	genesis := srv.cm.Tip().ID
+	sent := 0
+	for k := 0; k < nConns; k++ {
+		hdr := srv.hdr
+		hdr.UniqueID = gateway.GenerateUniqueID()
+		hdr.NetAddress = fmt.Sprintf("127.0.50.%d:%d", 10+k, 30000+k)
+		rp, err := dialRaw(fmt.Sprintf("127.0.50.%d", 10+k), srv.s.Addr(), hdr)
+		if err != nil {
+			orc(c, "setup", "raw peer: %v", err)
+			return
+		}
+		// one id at a time: each must be answered (the stream is closed) before the next
+		share := (nBad + nConns - 1) / nConns
+		for i := 0; i < share && sent < nBad; i++ {
+			var id [16]byte
+			switch rng.Intn(3) {
+			case 0:
+				copy(id[:], "NoSuchRPC")
+			case 1:
+				rng.Bytes(id[:])
+				id[0] |= 0x80 // not one of the nine ASCII specifiers
+			default:
+				copy(id[:], "SendV2Blocksx")
+			}
+			rp.send(id[:], 5*time.Second)
+			sent++
+		}
+		if rng.Bool() {
+			rp.send([]byte{'T', 'r', 'u', 'n'}, 2*time.Second) // truncated specifier: the connection is dropped
+		}
+		rp.close()
+	}
+	// quiescence: every started handler has executed its release hook
+	deadline := time.Now().Add(settleDeadline)
+	for time.Now().Before(deadline) {
+		started, released := 0, 0
+		for _, e := range threadgroup.VerifSnapshot() {
+			switch {
+			case e.Kind == "s.h.start":
+				started++
+			case e.Kind == "s.slot.ret" && e.B == 1:
+				released++
+			}
+		}
+		if started == released {
+			break
+		}
+		time.Sleep(2 * time.Millisecond)
+	}
+	time.Sleep(100 * time.Millisecond)
+	quietFrom := len(threadgroup.VerifSnapshot())
+	// an ordinary peer of the same subnet
+	cl, err := newNode("127.0.50.2", "127.0.50.2", nil, false)
+	if err != nil {
+		orc(c, "setup", "client: %v", err)
+		return
+	}
+	p, err := cl.s.Connect(context.Background(), srv.s.Addr())
+	if err != nil {
+		orc(c, "setup", "connect: %v", err)
+		return
+	}
+	const promptly = 10 * time.Second
+	if err := rpcBlocks(context.Background(), p, 0, 1, genesis, promptly); err != nil {
+		orc(c, "subnet-never-served-again", "after %d RPC(s) with unknown ids from the subnet (all answered, nothing in flight) an ordinary RPC from the same subnet was not served (%v), MaxInflightRPCsPerSubnet = %d: every request of the subnet is dropped although no handler runs", sent, err, maxSub)
+	}
+	// the real counter, as the code reports it under inflightMu at the next acquisition / rejection
+	for _, e := range threadgroup.VerifSnapshot()[quietFrom:] {
+		if e.Kind == "s.sub.acq" && e.B != 1 {
+			orc(c, "subnet-slot-leaked", "inflightSubnet = %d after acquiring ONE slot at a moment at which no handler of the subnet runs (after %d unknown ids): the per-subnet counter does not return to zero", e.B, sent)
+			break
+		} else if e.Kind == "s.sub.rej" {
+			orc(c, "subnet-slot-leaked", "an RPC was rejected with inflightSubnet = %d at a moment at which no handler of the subnet runs (after %d unknown ids)", e.B, sent)
+			break
+		}
+	}
+	if ok, _ := closeWithin(func() { srv.s.Close() }, closeDeadline); !ok {
+		orc(c, "syncer-close-hung", "Syncer.Close did not return within %v", closeDeadline)
+	}
+	closeWithin(func() { cl.s.Close() }, closeDeadline)
+	events := threadgroup.VerifStop()
+	c.Nontrivial = true
+	c.Key = fmt.Sprintf("%s/%d", name, len(events))
+	inventory(c)
+	for _, tc := range inflightCasesQ(name, events, srv.s.VerifID(), srv.s.VerifTG(), maxPeer, maxSub, quietFrom, []string{"scen:unknownid"}) {
 		r.Add(tc)
 	}
 }
